@@ -209,3 +209,29 @@ package source
 //@     ghost dsG := $result0
 //@   at call GetChangesWatermark#1 before
 //@     assert [C18:watermark-read-from-the-dataset-just-looked-up] $arg0 == dsG
+
+// ---------------------------------------------------------------------------
+// C11 / C10: the HTTP dataset source ends every successful read with one closing page (the rest of the stream, or an empty
+// page) carrying the continuation token: the pipelines stop reading only inside that callback
+//@ unit source.handleHTTPError
+//@   prop C11
+//@   ensures [C11:a-rejected-request-is-reported-as-an-error] result != nil
+//@ assumed source.httpClient
+//@   pure
+//@ assumed (security.Provider).Authorize
+//@   pure
+//@ assumed (source.DatasetContinuation).GetToken
+//@   pure
+//@ unit (*HTTPDatasetSource).ReadEntities
+//@   prop C11 C10
+//@   ghost closingG bool = false
+//@   requires httpDatasetSource != nil && httpDatasetSource.Store != nil && httpDatasetSource.Store.NamespaceManager != nil && !has($held, addrOf(httpDatasetSource.Store.NamespaceManager.lock))
+//@   requires [callers-hold-no-lock-at-or-above-the-namespace-lock] forall l int :: has($held, l) ==> lockLevel(l) < 5
+//@   dyncall processEntities preserves Cell.*
+//@   ensures [C11,C10:a-successful-read-ends-with-a-closing-page-so-the-pipeline-sees-the-end-of-the-source] result == nil ==> closingG
+//@   at call processEntities#1 before
+//@     assert [C11,C10:the-closing-page-carries-the-rest-of-the-stream-and-the-token] $arg0 == entities && cast($arg1, "*source.StringDatasetContinuation") == continuationToken
+//@     ghost closingG := true
+//@   at call processEntities#2 before
+//@     assert [C11,C10:an-empty-closing-page-still-carries-the-token] len($arg0) == 0 && cast($arg1, "*source.StringDatasetContinuation") == continuationToken
+//@     ghost closingG := true
